@@ -99,6 +99,25 @@ func valuePool(full bool) []*variants.Variant {
 		t(0), t(100), t(86400),
 		obj, arr,
 	}
+	if c06extraSeed != 0 {
+		rr := newRand(c06extraSeed)
+		for i := 0; i < 36; i++ {
+			switch i % 6 {
+			case 0:
+				pool = append(pool, variants.VariantFromInteger(rr.Intn(4001)-2000))
+			case 1:
+				pool = append(pool, variants.VariantFromLong(int64(rr.Intn(2000001)-1000000)))
+			case 2:
+				pool = append(pool, variants.VariantFromDouble(float64(rr.Intn(16001)-8000)/8))
+			case 3:
+				pool = append(pool, variants.VariantFromFloat(float32(rr.Intn(1601)-800)/4))
+			case 4:
+				pool = append(pool, d(time.Duration(rr.Intn(20001)-10000)*time.Millisecond))
+			default:
+				pool = append(pool, variants.VariantFromString(fmt.Sprint(rr.Intn(2001)-1000)))
+			}
+		}
+	}
 	if full {
 		pool = append(pool,
 			variants.VariantFromInteger(1), variants.VariantFromInteger(-1), variants.VariantFromInteger(2), variants.VariantFromInteger(100), variants.VariantFromInteger(4096),
@@ -117,6 +136,7 @@ func valuePool(full bool) []*variants.Variant {
 }
 
 var c06pool []*variants.Variant
+var c06extraSeed int64 // thorough tier: seeded random values are appended to the boundary pool
 
 func c06mgr(name string) variants.IVariantOperations {
 	if name == "safe" {
@@ -215,11 +235,14 @@ func execC06(seg []Ev) []Ev {
 	out := make([]Ev, 0, len(seg))
 	for _, in := range seg {
 		full := toBool(in["full"])
+		if v, ok := in["xseed"]; ok {
+			c06extraSeed = int64(toInt(v))
+		}
 		pool := valuePool(full) // fresh objects for every event: operators must not depend on earlier calls
 		op := toStr(in["op"])
 		mgr := toStr(in["mgr"])
 		m := c06mgr(mgr)
-		e := Ev{"op": op, "mgr": mgr, "full": full}
+		e := Ev{"op": op, "mgr": mgr, "full": full, "xseed": int(c06extraSeed)}
 		get := func(k string) *variants.Variant {
 			i := toInt(in[k])
 			e[k+"i"] = i
@@ -485,33 +508,36 @@ func init() {
 
 func genC06(g *Gen) {
 	full := true // the complete boundary pool is cheap enough for every run
+	if g.Thorough() {
+		c06extraSeed = g.Seed
+	}
 	n := len(valuePool(full))
 	for _, mgr := range []string{"unsafe", "safe"} {
 		for ai := 0; ai < n; ai++ {
 			for _, un := range []string{"Not", "Negative"} {
-				g.Run("unary operators x all values", []Ev{{"op": "un", "mgr": mgr, "name": un, "ai": ai, "full": full}})
+				g.Run("unary operators x all values", []Ev{{"op": "un", "mgr": mgr, "name": un, "ai": ai, "full": full, "xseed": int(c06extraSeed)}})
 			}
 			for _, law := range []string{"negneg", "notnot", "selfstring"} {
-				g.Run("algebraic laws", []Ev{{"op": "law", "mgr": mgr, "law": law, "ai": ai, "bi": ai, "full": full}})
+				g.Run("algebraic laws", []Ev{{"op": "law", "mgr": mgr, "law": law, "ai": ai, "bi": ai, "full": full, "xseed": int(c06extraSeed)}})
 			}
 			for _, kind := range []string{"array", "string"} {
-				g.Run("indexing x all index values", []Ev{{"op": "elem", "mgr": mgr, "kind": kind, "ai": ai, "full": full}})
+				g.Run("indexing x all index values", []Ev{{"op": "elem", "mgr": mgr, "kind": kind, "ai": ai, "full": full, "xseed": int(c06extraSeed)}})
 			}
 			for bi := 0; bi < n; bi++ {
 				for _, name := range binNames {
-					g.Run("all operators x all ordered pairs of values", []Ev{{"op": "bin", "mgr": mgr, "name": name, "ai": ai, "bi": bi, "full": full}})
+					g.Run("all operators x all ordered pairs of values", []Ev{{"op": "bin", "mgr": mgr, "name": name, "ai": ai, "bi": bi, "full": full, "xseed": int(c06extraSeed)}})
 				}
-				g.Run("comparison consistency", []Ev{{"op": "cmp", "mgr": mgr, "ai": ai, "bi": bi, "full": full}})
+				g.Run("comparison consistency", []Ev{{"op": "cmp", "mgr": mgr, "ai": ai, "bi": bi, "full": full, "xseed": int(c06extraSeed)}})
 				for _, law := range []string{"addsub", "xorxor", "divmod", "addcomm"} {
-					g.Run("algebraic laws", []Ev{{"op": "law", "mgr": mgr, "law": law, "ai": ai, "bi": bi, "full": full}})
+					g.Run("algebraic laws", []Ev{{"op": "law", "mgr": mgr, "law": law, "ai": ai, "bi": bi, "full": full, "xseed": int(c06extraSeed)}})
 				}
-				g.Run("membership", []Ev{{"op": "in", "mgr": mgr, "ai": ai, "bi": bi, "full": full}})
+				g.Run("membership", []Ev{{"op": "in", "mgr": mgr, "ai": ai, "bi": bi, "full": full, "xseed": int(c06extraSeed)}})
 				for _, name := range []string{"Add", "Sub", "Mul", "Div", "Mod", "And", "Equal", "Less", "In", "Pow", "Lsh"} {
 					if (ai+bi)%3 == 0 || ai == 0 || bi == 0 {
-						g.Run("results are not aliased between calls", []Ev{{"op": "alias", "mgr": mgr, "name": name, "ai": ai, "bi": bi, "full": full}})
+						g.Run("results are not aliased between calls", []Ev{{"op": "alias", "mgr": mgr, "name": name, "ai": ai, "bi": bi, "full": full, "xseed": int(c06extraSeed)}})
 					}
 				}
-				g.Run("'^' on integers equals '^' on the equal doubles", []Ev{{"op": "powdouble", "mgr": mgr, "ai": ai, "bi": bi, "full": full}})
+				g.Run("'^' on integers equals '^' on the equal doubles", []Ev{{"op": "powdouble", "mgr": mgr, "ai": ai, "bi": bi, "full": full, "xseed": int(c06extraSeed)}})
 			}
 		}
 	}
